@@ -5,7 +5,15 @@ from cmdh import commander_check, commander_replay
 
 def run(chk):
     commander_check(chk, 'Supv.Props.C10', ['C10-'])
+    import c16free
+    c16free.liveness_stage(chk, 'C10:free:', [{}, {'ending': True}], 100, 2000)
 
 
 def replay(chk, path):
-    commander_replay(chk, path, ['C10-'])
+    import json
+    c = json.load(open(path)); r = c.get('replay', c)
+    if r.get('stage') == 'free':
+        import c16free
+        c16free.liveness_replay(chk, r, 'C10:free:')
+    else:
+        commander_replay(chk, path, ['C10-'])
